@@ -122,8 +122,9 @@ def _score(model):
     return GM.table[(model.x, model.rep)]
 
 
-def selection(s0: int, s1: int, s2: int, s3: int, parity: bool) -> bool:
+def selection(s0: int, s1: int, s2: int, s3: int, parity: bool, o0: int, o1: int, o2: int) -> bool:
     """
+    pre: o0 >= 0 and o1 >= 0 and o2 >= 0
     post: _
     """
     # one repetition, MIN/MAX mode: the aggregate of combination i is exactly s_i (any int: ties, negative, huge)
@@ -135,6 +136,7 @@ def selection(s0: int, s1: int, s2: int, s3: int, parity: bool) -> bool:
     mode = ScoreMode.MAX if parity else ScoreMode.MIN
     saved = B.Pool
     B.Pool = FakePool
+    FakePool.order = [o0, o1, o2]          # the pool completes work in an arbitrary (symbolic) order
     try:
         best, results = B.grid_search(GM, {"x": list(range(k))}, _score, processes=procs, mode=mode)
     finally:
@@ -206,6 +208,41 @@ def repetitions(a0: int, a1: int, a2: int, b0: int, b1: int, b2: int, mi: int) -
     return hx.end(best is results[bi])
 
 
+def reuse(s0: int, s1: int, t0: int, t1: int, parity: bool) -> bool:
+    """
+    post: _
+    """
+    # one ParameterList object used for two searches in a row (and inspected in between): every search evaluates and
+    # reports the unmodified declared parameters
+    hx.begin()
+    procs2 = hx.P['procs2']
+    pl = B.ParameterList({"x": [0, 1]})
+    mode = ScoreMode.MAX if parity else ScoreMode.MIN
+    GM.built = []
+    GM.table = {(0, 0): s0, (1, 0): s1}
+    best1, res1 = B.grid_search(GM, pl, _score, processes=1, mode=mode)
+    snapshot1 = [dict(r) for r in res1]
+    if pl.build() != [{"x": 0}, {"x": 1}]:
+        return hx.end(hx.fail("a search changed what the parameter list builds", got=pl.build()))
+    GM.built = []
+    GM.table = {(0, 0): t0, (1, 0): t1}
+    saved = B.Pool
+    B.Pool = FakePool
+    FakePool.order = [0, 0]
+    try:
+        best2, res2 = B.grid_search(GM, pl, _score, processes=procs2, mode=mode)
+    finally:
+        B.Pool = saved
+    hx.reach('second_search')
+    for i, (r, sc) in enumerate(zip(res2, (t0, t1))):
+        if r.get("x") != i or r.get("records") != [sc] or r.get("score") != sc or len(r) != 3:
+            return hx.end(hx.fail("second search on the same ParameterList", index=i, got=r))
+    if [dict(r) for r in res1] != snapshot1:
+        return hx.end(hx.fail("the second search rewrote the first search's reported results"))
+    bi = 1 if ((parity and t1 > t0) or ((not parity) and t1 < t0)) else 0
+    return hx.end(best2 is res2[bi])
+
+
 def reserved_names(s0: int, s1: int) -> bool:
     """
     post: _
@@ -251,6 +288,7 @@ def obligations(tier):
         X("selection", selection, parts=[{"k": k, "procs": p} for k in (1, 2, 3, 4) for p in (1, 2) if not (p == 2 and k in (1, 3))],
           labels=("best_last", "best_first"), labels_for=lambda p: ("best_last", "best_first") if p["k"] > 1 else ("best_first",),
           timeout=600, encoded=enc, bounds={"combinations": "1..4", "aggregates": "all ints"}),
+        X("reuse", reuse, parts=[{"procs2": 1}, {"procs2": 2}], labels=("second_search",), timeout=600, encoded=enc + (B.ParameterList.build,)),
         X("repetitions", repetitions, parts=[{"reps": r, "procs": p} for r in (1, 2, 3) for p in (1, 2) if not (p == 2 and r == 1)],
           labels=("second_best", "first_best"), timeout=900, encoded=enc),
     ]
